@@ -374,12 +374,25 @@ static bool run_case(Out &o, const MeshSpec &ms) {
 int main(int argc, char **argv) {
   if (argc < 4) { fprintf(stderr, "usage: h_ebenc <tier> <seed> <outfile>\n"); return 2; }
   const bool thorough = std::string(argv[1]) == "thorough";
-  Rng r((uint64_t)atoll(argv[2]));
+  // common.h's Rng(seed) starts at seed*G + K and advances by G per call: the streams of seed k and k+1 are the same stream
+  // shifted by one call (they re-synchronise: seeds 1 and 2 gave byte-identical case files).  Seed through one output instead.
+  Rng r0((uint64_t)atoll(argv[2]));
+  Rng r(r0.next());
   Out o(argv[3]);
   int nmesh = thorough ? 2500 : 420;
   for (int i = 0; i < nmesh; i++) {
     MeshSpec ms = gen_mesh(r, i, thorough);
     if (ms.grp.empty()) ms.grp.assign(ms.f.size(), {0, 0, 0});
+    if (ms.method == 2) run_case<RecValTE, 2>(o, ms); else run_case<RecStdTE, 0>(o, ms);
+  }
+  // dense random face sets over very few vertices: everything CornerTable::Create repairs at once (multi-edges, mirrored and
+  // duplicated faces, edges shared by many faces), and the decoder's "simple graph" guard num_vertices*(num_vertices-1)/2 >= 3*num_faces/2
+  int ndense = thorough ? 4000 : 500;
+  for (int i = 0; i < ndense; i++) {
+    MeshSpec ms; add_dense(ms, r, 3 + (int)r.below(5), 1 + (int)r.below(30), r.chance(15)); ms.name = "dense";
+    ms.natt = 0; ms.speed = r.chance(80) ? 5 : 7; ms.single = -1; ms.method = r.chance(85) ? 0 : 2;
+    if (ms.f.empty()) continue;
+    ms.grp.assign(ms.f.size(), {0, 0, 0});
     if (ms.method == 2) run_case<RecValTE, 2>(o, ms); else run_case<RecStdTE, 0>(o, ms);
   }
   o.note("meshes=" + S(g_meshes) + " symbols=" + S(g_syms) + " S_symbols=" + S(g_S) + " split_events=" + S(g_events) + " interior_start_faces=" + S(g_interior) +
